@@ -116,7 +116,9 @@ func (p Polygon) Centroid() Point {
 	for _, r := range p {
 		a := signedarea(r)
 		if r[len(r)-1] != r[0] {
-			r = append(r, r[0])
+			// (a copy: appending in place would write into the ring's spare
+			// capacity, which may be the storage of the next ring)
+			r = append(r[:len(r):len(r)], r[0])
 		}
 		cx, cy := ringCentroid(r, a)
 		A += a
